@@ -40,6 +40,12 @@ def run(pid, tier, seed, replay=None):
             if pid != 'C03' and r['verdict'] not in ('ok',):
                 # a run that did not finish cannot witness this property; C03 reports it.  Still a tie problem here.
                 fails.append(T.fail(s, r, 'run did not complete (%s %s): reported under C03; this property was not observable' % (r['verdict'], r['detail']), states=r['states']))
+        if pid == 'C02':
+            # the implicit barrier in the destructor of every container kind
+            from . import dtor
+            df, nobs = dtor.explore(seed_, tier_)
+            fails += df
+            state['dtor_observations'] = state.get('dtor_observations', 0) + nobs
         ls = []
         if with_lockstep:
             sub = [s for s in scens if s.kind in ('mixed', 'storm', 'masked', 'aggregate', 'stream')]
@@ -80,6 +86,7 @@ def run(pid, tier, seed, replay=None):
                 'replay': 'write the scenario text to a file and run: simmpi/simrun <options from the cmd field> -- traffic <file>',
                 'extra': {'distribution': dist, 'lockstep_runs': len(ls), 'lockstep_events': sum(l.get('events', 0) for s, l in ls),
                           'lockstep_disagreements': state.get('lockstep_bad', []),
+                          'container_destructor_observations': state.get('dtor_observations', 0),
                           'replayed_scenarios_satisfying_the_theorem_hypotheses': sum(1 for s, l in ls if l.get('legal') == 'ok')}}
     def search():
         found = []
